@@ -24,7 +24,7 @@ BOUNDS = {
 QUICK = [("ab/explicit", 2, "all"), ("abc/explicit", 1, "all"), ("at/explicit", 1, "all"), ("diamond/explicit", 1, "compounds"), ("wide/1", 1, "all"), ("d3/ab/explicit", 1, "all"), ("fixed/ab", 1, "compounds")]
 THOROUGH = [("ab/explicit", 2, "all"), ("abc/explicit", 2, "all"), ("at/explicit", 2, "all"), ("ab/generated", 2, "all"),
             ("abt/explicit", 1, "all"), ("abct/explicit", 1, "all"), ("diamond/explicit", 1, "all"), ("diamond/generated", 1, "compounds"),
-            ("d3/abc/explicit", 1, "all"), ("fixed/ab", 1, "all")]
+            ("d3/abc/explicit", 1, "all"), ("fixed/ab", 1, "all"), ("alt/mix3b+abt+explicit", 1, "all"), ("alt/mix3+abt+explicit", 1, "all")]
 
 
 def shards(tier):
